@@ -101,6 +101,7 @@ type interpreter struct {
 	panicStack []string
 	events     []Event
 	osst       *osState
+	mapOrderFrozen bool // zzvrt.SchedulesDone: later map ranges use key order
 }
 
 type deferred struct {
